@@ -28,6 +28,9 @@ def run_encode_cases(cases, rec, props, after=None, reach=True):
         monitors.start_reach()
     for case in cases:
         rec.case = case
+        if case.get('pre'):
+            # a call made just before in the same process (state keyed by a part of the arguments must not leak)
+            call(case['pre'])
         monitors.State.last = None
         rec.count('evaluations')
         q, ex = call(case)
